@@ -41,7 +41,7 @@ func TestMain(m *testing.M) {
 		"which holders are dropped when more than max are healthy",
 		"unhealthy (or excluded) current holders that stay listed or disappear",
 		"how many peers between min and max are added, and the order of the list",
-		"the order in which several healthy priority peers are taken",
+		"the position of priority peers within the stored list (which of them are taken when they do not all fit is judged: the strategy's ranking)",
 		"ties between equal metric values",
 		"BlockAllocate with factor -1 (returns the peers with a valid ping metric by design)",
 		"factor pairs that are neither both positive nor (-1,-1): outcome recorded only",
